@@ -42,7 +42,22 @@ pub fn run(tier: &str) -> Result<Report, String> {
             slices.push(json!({"network": b.name, "extended_max_nodes": m_ext, "formulae": fs.len(), "label_families": fams}));
         }
     }
+    // every constrained network of the all-2-variable grammar
+    let (all2, info) = all2_nets(3, if tier == "quick" { Some(2) } else { None })?;
+    rep.set("all_2_variable_networks", info);
+    let mut alpha2 = Alphabet::plain(2, 2);
+    alpha2.bi = crate::formulas::ALL_BI.to_vec();
+    let mut g2 = Gen::new(alpha2);
+    let fs2 = g2.closed_up_to(3);
+    let mut n2 = 0;
+    for b in all2.iter().filter(|b| b.invalid_valuations > 0) {
+        sem::note_network_light(&mut rep, b);
+        let ctx = NetCtx::new(b.clone(), Labels::default(), "none");
+        sem::sweep(&mut rep, &ctx, &fs2, Checks { semantic: false, unit: true, entries: Entries::Plain4 });
+        n2 += 1;
+    }
+    slices.push(json!({"part": "constrained networks of the all-2-variable family", "networks": n2, "max_nodes": 3, "formulae": fs2.len()}));
     rep.set("slices", json!(slices));
-    rep.rule = "networks of the core family whose unit set is a strict subset of all parameter valuations x all closed plain formulae (all 9 binary operators) up to plain_max_nodes and extended formulae up to extended_max_nodes: every raw result must be a subset of the unit set and independent of auxiliary variables, every sanitised result must not have more elements/colours than the unit set; distinct_nontrivial counts distinct non-trivial verdict tables of the explored formulae".into();
+    rep.rule = "networks of the core family and of the de-duplicated all-2-variable family whose unit set is a strict subset of all parameter valuations x all closed plain formulae (all 9 binary operators) up to plain_max_nodes and extended formulae up to extended_max_nodes: every raw result must be a subset of the unit set and independent of auxiliary variables, every sanitised result must not have more elements/colours than the unit set; distinct_nontrivial counts distinct non-trivial verdict tables of the explored formulae".into();
     Ok(rep)
 }
